@@ -5,7 +5,7 @@
    3/2 (refuted below with a 5.1 header that is reported as 5 channels). *)
 From Coq Require Import ZArith List Bool Lia.
 Import ListNotations.
-Require Import Base.Py Base.ZList Model.InfoBase Model.InfoMpeg Model.InfoAc3 Gen.Gen_tables Proofs.C05_mpeg.
+Require Import Base.Py Base.ZList Model.InfoBase Model.InfoMpeg Model.InfoAc3 Gen.Gen_tables Proofs.C05_bits Proofs.C05_mpeg.
 Open Scope Z_scope.
 
 Theorem ac3_tables_match_spec : ac3_table_diffs = [[]; []; []; []; []].
@@ -50,13 +50,15 @@ Theorem ac3_lfe_position_refuted :
   exists p l, a3_acmod p = 7 /\ a3_lfeon p = 1 /\ decode_ac3 (build_ac3_frame p) = Ok l /\
               nth 3 l 0 = 5 /\ nth 3 (expected_ac3 p) 0 = 6.
 Proof.
-  exists (mkAc3 0 20 8 0 7 1 1 0 1 27). eexists. repeat split; try (vm_compute; reflexivity).
+  exists (mkAc3 0 20 8 0 7 1 1 0 1 27). exists [0; 48000; 192000; 5; 432; 192000].
+  split; [reflexivity|]. split; [reflexivity|]. split; [vm_compute; reflexivity|].
+  split; [reflexivity | vm_compute; reflexivity].
 Qed.
 
 (* how often: in the other four channel modes exactly the headers whose bit at the fixed position differs from lfeon *)
 Theorem ac3_bad_modes_count :
-  length (filter (fun p => negb (ac3_check p)) (ac3_domain [0; 1; 5; 7])) = 15048%nat /\
-  length (ac3_domain [0; 1; 5; 7]) = 30096%nat.
+  zlen (filter (fun p => negb (ac3_check p)) (ac3_domain [0; 1; 5; 7])) = 15048 /\
+  zlen (ac3_domain [0; 1; 5; 7]) = 30096.
 Proof. vm_compute. split; reflexivity. Qed.
 
 Lemma eac3_checked : forallb eac3_check eac3_domain = true.
@@ -85,5 +87,5 @@ Qed.
 Theorem ac3_invalid_rejected :
   forallb (fun p => ac3_rejects (build_ac3_frame p)) ac3_invalid_domain = true /\
   forallb (fun p => ac3_rejects (build_eac3_frame p)) eac3_invalid_domain = true /\
-  (length ac3_invalid_domain > 0)%nat.
-Proof. vm_compute. repeat split; try reflexivity. lia. Qed.
+  zlen ac3_invalid_domain = 4544.
+Proof. split; [vm_compute; reflexivity | split; vm_compute; reflexivity]. Qed.
